@@ -6,7 +6,7 @@ from . import register
 register(PropSpec(
     "C16",
     engines=[EngineSpec("exec", gen_gov.gen_c16, gen_gov.mon_c16, gen_gov.tags_c16, quick_n=160, thorough_n=4000, mask=gen_gov.mask_c16)],
-    facts=["lifecycle", "availableStatus", "appchainCascade", "appchainSubmissionCascade"],
+    facts=["lifecycle", "availableStatus", "appchainCascade", "appchainSubmissionCascade", "serviceRejectRepause"],
     rule="exec engine: interchain requests between 6 services of 4 chains (incl. a blacklisting destination and destinations that do not exist) "
          "interleaved with real governance operations (freeze / activate / logout of services and appchains, service registration; approved, "
          "rejected or left open by the admins' votes) and node restarts (cached vs stored service records); before every request the governance status "
